@@ -39,6 +39,8 @@ class Arith:
             return f"{e.value}" if e.value >= 0 else f"({e.value})"
         if isinstance(e, ast.Name):
             return self.use(e.id)
+        if isinstance(e, ast.Attribute) and isinstance(e.value, ast.Name) and e.value.id == "self":
+            return self.use("self_" + e.attr.lstrip("_"))
         if isinstance(e, ast.Attribute) and isinstance(e.value, (ast.Name, ast.Attribute)):
             return self.use(e.attr)
         if isinstance(e, ast.Subscript) and ast.unparse(e.value) == "token.map" and isinstance(e.slice, ast.Constant) \
@@ -59,11 +61,11 @@ class Arith:
                     and t.comparators[0].value is None and ast.dump(t.left) == ast.dump(e.body):
                 x = self.use(e.body.attr if isinstance(e.body, ast.Attribute) else e.body.id, "option Z")
                 return f"(match {x} with Some {x}__v => {x}__v | None => {self.tr(e.orelse)} end)"
-        if isinstance(e, ast.BoolOp) and isinstance(e.op, ast.Or) and len(e.values) == 2 and isinstance(e.values[0], ast.Name) \
-                and isinstance(e.values[1], ast.Constant) and e.values[1].value == 0:
-            # `startline or 0` for an optional int
+        if isinstance(e, ast.BoolOp) and isinstance(e.op, ast.Or) and len(e.values) == 2 and isinstance(e.values[0], ast.Name):
+            # `x or y` for an optional int x (None -> y; a line number / offset 0 is falsy too and then y is taken as well)
             x = self.use(e.values[0].id, "option Z")
-            return f"(match {x} with Some {x}__v => {x}__v | None => 0 end)"
+            other = self.tr(e.values[1])
+            return f"(match {x} with Some {x}__v => if ({x}__v =? 0) then {other} else {x}__v | None => {other} end)"
         raise Untranslatable(f"arithmetic expression {ast.unparse(e)}")
 
 
@@ -146,7 +148,43 @@ def generate(repo: Path) -> str:
                "nested_parse -> nested_render_text")
     if len(call.args) < 2:
         raise Untranslatable("nested_parse: nested_render_text arguments")
-    out.append(define("nested_parse_lineno_src", call.args[1], "MockState.nested_parse, lineno argument", ["lineno", "input_offset"]))
+    out.append(define("nested_parse_lineno_src", call.args[1], "MockState.nested_parse, lineno argument", ["self_lineno", "input_offset"]))
+    # MockState.block_quote (epigraph / pull-quote / highlights): the offset handed on, the attribution's lineno and line
+    bq = find_function(ms, "block_quote")
+    bcall = one((n for n in ast.walk(bq) if isinstance(n, ast.Call) and ast.unparse(n.func) == "self.nested_parse"),
+                "block_quote -> nested_parse")
+    if len(bcall.args) != 3:
+        raise Untranslatable("block_quote: nested_parse arguments")
+    out.append(define("block_quote_offset_src", bcall.args[1], "MockState.block_quote, offset handed to nested_parse", ["line_offset"]))
+    alin = one((n for n in ast.walk(bq) if isinstance(n, ast.Assign) and ast.unparse(n.targets[0]) == "lineno"), "attribution lineno")
+    out.append(define("attribution_lineno_src", alin.value, "MockState.block_quote, lineno of the attribution text",
+                      ["self_lineno", "line_offset", ("attribution_line_offset", "option Z")]))
+    itext = one((n for n in ast.walk(bq) if isinstance(n, ast.Call) and ast.unparse(n.func) == "self.inline_text"), "attribution inline_text")
+    if ast.unparse(itext.args[1]) != "lineno":
+        raise Untranslatable("block_quote: inline_text lineno")
+    gsl = one((n for n in ast.walk(bq) if isinstance(n, ast.Call) and ast.unparse(n.func) == "self.state_machine.get_source_and_line"),
+              "attribution get_source_and_line")
+    out.append(define("attribution_line_src", gsl.args[0], "MockState.block_quote, line of the attribution node", ["lineno"]))
+    # MockState.inline_text -> MockInliner.parse -> nested_render_text(text, lineno, inline=True)
+    it = find_function(ms, "inline_text")
+    icall = one((n for n in ast.walk(it) if isinstance(n, ast.Call) and ast.unparse(n.func) == "self.inliner.parse"), "inline_text -> inliner.parse")
+    if ast.unparse(icall.args[1]) != "lineno":
+        raise Untranslatable("inline_text: lineno is no longer passed on")
+    mi = one((n for n in ast.walk(mock) if isinstance(n, ast.ClassDef) and n.name == "MockInliner"), "class MockInliner")
+    pcall = one((n for n in ast.walk(find_function(mi, "parse")) if isinstance(n, ast.Call)
+                 and ast.unparse(n.func).endswith("nested_render_text")), "MockInliner.parse -> nested_render_text")
+    out.append(define("inliner_lineno_src", pcall.args[1], "MockInliner.parse, lineno argument", ["lineno"]))
+    # MockState.parse_directive_block: returned content offset
+    pdb = find_function(ms, "parse_directive_block")
+    retv = one((n for n in ast.walk(pdb) if isinstance(n, ast.Return) and isinstance(n.value, ast.Tuple)), "parse_directive_block return")
+    out.append(define("directive_block_offset_src", retv.value.elts[3], "MockState.parse_directive_block, content offset",
+                      ["line_offset", "body_offset"]))
+    # MockStateMachine.get_source_and_line
+    msm = one((n for n in ast.walk(mock) if isinstance(n, ast.ClassDef) and n.name == "MockStateMachine"), "class MockStateMachine")
+    gs = find_function(msm, "get_source_and_line")
+    gret = one((n for n in ast.walk(gs) if isinstance(n, ast.Return) and isinstance(n.value, ast.Tuple)), "get_source_and_line return")
+    out.append(define("source_and_line_src", gret.value.elts[1], "MockStateMachine.get_source_and_line, line",
+                      [("lineno", "option Z"), "self_lineno"]))
     # render_colon_fence: prepended_lines and the plain div
     cf = find_function(base, "render_colon_fence")
     pre = [n.value.value for n in ast.walk(cf) if isinstance(n, ast.Assign) and ast.unparse(n.targets[0]) == "prepended_lines"
